@@ -263,3 +263,19 @@ Theorem C19_blocks_spec_is_sequence : forall c s G D vec,
   s_cur a = s_cur b /\ forall k, s_map a k = s_map b k.
 Proof. exact blocks_spec_is_sequence. Qed.
 Print Assumptions C19_blocks_spec_is_sequence.
+
+(* ---- the counter updates regenerated from the Python source (translator T6, Gen/PyFront.v): the
+   accepted branch of the model's rf_write_blocks is exactly gen_blocks_counters (that of rf_write is
+   C05_py_rf_write_is_the_regenerated_code) *)
+From DRF Require Import Gen.PyFront Proofs.PyFrontProofs.
+
+Theorem C19_blocks_counters_are_the_regenerated_code : forall c ps G D vec,
+  py_arrays_ok (p_next ps) (zlen vec) G D = true -> p_closed ps = false ->
+  py_rf_write_blocks c ps G D vec =
+    (let '(rc, w') := if c_cont c && (1 <? Z.of_nat (length G)) then split_blocks c (p_w ps) G D vec (zlen vec)
+                      else write_blocks c (p_w ps) (combine G D) vec in
+     if negb (rc =? 0) then ((RuntimeError, 0), mkPy (p_next ps) (p_written ps) (p_gap ps) false w')
+     else let '(nx, wr, gp, ret) := gen_blocks_counters (p_next ps) (p_written ps) (p_gap ps) (w_gi w') (zlen vec) in
+          ((OK, ret), mkPy nx wr gp false w')).
+Proof. exact blocks_counters_regen. Qed.
+Print Assumptions C19_blocks_counters_are_the_regenerated_code.
